@@ -2,7 +2,8 @@
    The implementation's observations arrive as exact dyadic numbers (C18/QData.v); the hand model
    (C18/Model.v) is run at exact rationals (QOps; sqrt/sin/cos/atan2/asin/exp are 2^-140
    approximations, see Sem/QInst.v) on the quadrature tables REGENERATED this run (Run.GenQuad)
-   with the angle formula the CURRENT source uses (Run.GenAngle).  Definitions only. *)
+   with the angle formula the CURRENT source uses (Run.GenAngle).  Definitions only, and one vm_compute
+   check of the local exp against QInst.qexp. *)
 From Coq Require Import QArith Qabs ZArith String List Bool Qround Uint63.
 From Bignums Require Import BigZ.
 From Verif.Sem Require Import Field QInst BInst Corr.
@@ -80,7 +81,28 @@ Definition k_ok (kind k : Z) (c : cyld) : bool :=
 (* the same model run at the fast fixed-point instance (Sem/BInst.v: BigZ / 2^200, machine-word limbs):
    exact-rational evaluation of the rotated rule and of the transmission integrand needs minutes per
    case because numerators grow with every operation *)
-Definition BO : Fops := BOps.
+(* exp on the fixed-point grid with BigZ arithmetic throughout (BOps goes through QInst.qexp, whose series runs in
+   binary Z: 20-40 ms per call, and the transmission needs one call per integration point and wavelength):
+   y = x / 2^k with |y| <= 1/2, 50 terms of the series, k squarings.  Every step truncates to 2^-200; it is
+   compared with QInst.qexp below (bexp_agrees_with_qexp) and is used for the comparison value only. *)
+Fixpoint bexp_series (fuel : nat) (k term y acc : bigZ) : bigZ :=
+  match fuel with
+  | O => acc
+  | S f => bexp_series f (k + 1)%bigZ (BigZ.div (bmul term y) (k + 1))%bigZ y (acc + term)%bigZ
+  end.
+Definition bexp (x : bigZ) : bigZ :=
+  let a := BigZ.abs x in
+  let k := if BigZ.leb (a * 2) BONE then 0%Z else (BigZ.to_Z (BigZ.log2 (BigZ.shiftr a BSH)) + 2)%Z in
+  let y := BigZ.shiftr x (BigZ.of_Z k) in
+  Nat.iter (Z.to_nat k) (fun v => bmul v v) (bexp_series 50 0%bigZ BONE y 0%bigZ).
+Definition BO : Fops :=
+  mkFops bigZ badd bsub bmul bdiv BigZ.opp bofZ bsqrt (bviaQ qsin) (bviaQ qcos)
+         (fun y x => b_ofQ (qatan2 (b_toQ y) (b_toQ x))) (bviaQ qasin) bexp BigZ.abs (b_ofQ qpi)
+         BigZ.leb BigZ.ltb BigZ.eqb bclose BONE BONE brint.
+Lemma bexp_agrees_with_qexp :
+  forallb (fun x : Q => Qle_bool (Qabs (b_toQ (bexp (b_ofQ x)) - qexp x)) (1 # 10 ^ 35))
+          [0; -1 # 100000; -1 # 3; -1 # 2; -51 # 100; -1; -199 # 100; -2; -173 # 10; -40; 1 # 7; 3] = true.
+Proof. vm_compute. reflexivity. Qed.
 Definition bq (d : dy) : bigZ := b_ofQ (dyQ d).
 Definition vb (p : v3d) : vec BO := let '(x, y, z) := p in @mkvec BO (bq x) (bq y) (bq z).
 Definition cb (c : cyld) : cylinder BO := @mkcyl BO (vb (cd_axis c)) (vb (cd_base c)) (bq (cd_r c)) (bq (cd_h c)).
